@@ -53,6 +53,8 @@ def cases(rng, tier):
         yield rvgen.sim_case(rng, "single", opts={"wide": i % 3 == 0}, trace=25, run=300, dprob=0.0, iprob=0.0)
     for i in range(n // 2):
         yield rvgen.chain_case(rng, "single", trace=16, run=100)
+    for i in range(n // 6):
+        yield rvgen.ecall_case(rng, "single", trace=20, run=100)
 
 
 def nontrivial(c):
